@@ -68,7 +68,7 @@ def quad_moments_from_gradient(grad, n):
     return g0, (H + H.T) / 2
 
 
-def check_affine_law(dist, n, logd, rec, what, tol, intrinsic=False, log_transform=False, moments=None):
+def check_affine_law(dist, n, logd, rec, what, tol, intrinsic=False, log_transform=False, moments=None, reg=0.0):
     k, k_total, draw = affine_map(dist, n, 1)
     tr = (lambda v: np.log(np.asarray(v, dtype=float))) if log_transform else (lambda v: np.asarray(v, dtype=float))
     s0 = must(lambda: draw(np.zeros(k_total)), f"{what}: sample(1)")
@@ -98,8 +98,11 @@ def check_affine_law(dist, n, logd, rec, what, tol, intrinsic=False, log_transfo
         Hp = R @ np.diag(1 / w[keep]) @ R.T
         Cp = R @ R.T @ C @ R @ R.T
         require(close(R.T @ (H @ a - g0), 0 * w[keep], tol * scale), f"{what}: offset of the draws is not the mean on the range of the precision")
-        require(close(Cp, Hp, tol * max(1.0, np.abs(Hp).max())),
-                f"{what}: covariance of the draws is not the pseudo-inverse of the precision on its range", cov_draws=Cp, pinv=Hp)
+        # `reg`: size (in units of the precision) of the documented regularisation eps*I the sampler adds before factorising; it
+        # changes the covariance on the range by at most reg / lambda_min^2
+        atol = max(tol * max(1.0, np.abs(Hp).max()), 4 * reg / float(np.min(w[keep])) ** 2)
+        require(maxdiff(Cp, Hp) <= atol,
+                f"{what}: covariance of the draws is not the pseudo-inverse of the precision on its range", cov_draws=Cp, pinv=Hp, atol=atol)
     return k_total
 
 
@@ -212,7 +215,8 @@ def run_gmrf(c, rec):
     def quad(x):
         return float(G.logpdf(x) - base)
     intrinsic = bc in ("periodic", "neumann") and order > 0
-    check_affine_law(G, dim, quad, rec, f"GMRF(bc={bc}, order={order}, pd={pd})", 1e-6, intrinsic=intrinsic)
+    check_affine_law(G, dim, quad, rec, f"GMRF(bc={bc}, order={order}, pd={pd})", 1e-6, intrinsic=intrinsic,
+                     reg=float(c["prec"]) * np.sqrt(np.finfo(float).eps))
     check_shapes_and_stream(G, dim, rec, "GMRF")
 
 
@@ -286,6 +290,10 @@ def pit_cases(draw, tier="quick"):
     s = draw(dists.family_spec(families=fams, max_dim=3, modes=("vector", "scalar", "list")))
     s["seed"] = draw(st.integers(0, 2 ** 20))
     s["N1"] = 20000 if tier == "quick" else 100000
+    if s["fam"] == "Beta":
+        # Beta(a, b) with b << 1 puts mass (2^-53)^b (1.2% for b = 0.12) closer to 1 than doubles resolve: the draws collapse onto
+        # exactly 1.0 and the probability-integral transform has an atom that is an artefact of floating point, not of the sampler
+        s["beta"] = [max(0.45, float(v)) for v in s["beta"]]
     return s
 
 
